@@ -1629,3 +1629,26 @@ M.contract(P_SDV + '.path_from_symbol_reference:SdvThatIsIdenticalToReferencedPa
            inline=True,
            ensures={'the leading reference comes first': lambda self, result:
            result[0] is self._path_or_string_symbol}, raises_only=())
+
+
+# ====================================================================================== symbol usages
+# "a path symbol whose value is relative to a home directory or the result directory, or is absolute -- however
+# many symbol definitions it is routed through -- is rejected before execution": the restriction classes of this
+# module decide a single reference; that EVERY reference of EVERY instruction is put before its restriction (the
+# fold over the symbol usages against the growing table) is under contract in C08.  Those clauses carry C12 as
+# well: the check of C12 re-proves them on the current tree.  (After the seeded change C12-s2, which checked only
+# the first reference to a name within an instruction.)
+
+def _share_symbol_validation():
+    from contracts.common import share_contracts
+    wanted = (':_validate_reference', ':_validate_symbol_reference', ':_validate_symbol_definition',
+              ':validate_symbol_usage', ':validate_symbol_usages',
+              ':ReferenceRestrictionsOnDirectAndIndirect._check_indirect',
+              ':ReferenceRestrictionsOnDirectAndIndirect.check_indirect',
+              ':ReferenceRestrictionsOnDirectAndIndirect.is_satisfied_by',
+              ':OrReferenceRestrictions._no_satisfied_restriction', ':OrReferenceRestrictions.is_satisfied_by')
+    names = share_contracts('C12', 'contracts.C08_symbols', lambda q: q.endswith(wanted))
+    assert len(set(names)) >= len(wanted) - 1, names      # (_no_satisfied_restriction: a helper without contract of its own)
+
+
+M.after_load = _share_symbol_validation
